@@ -192,7 +192,12 @@ func (a *Agent) serveUpdates(p pool.Pool) error {
 	for {
 		select {
 		case <-ticker:
-			if err := a.UpdatePeers(context.Background(), p); err != nil {
+			// A keep-alive that is never answered must not hold the loop
+			// forever, it could not even be stopped then.
+			ctx, cancel := context.WithTimeout(context.Background(), updateTimeout)
+			err := a.UpdatePeers(ctx, p)
+			cancel()
+			if err != nil {
 				return err
 			}
 		case <-a.stopCh:
